@@ -51,6 +51,16 @@ sq.grow(1).describe()
 sq.edge
 Shape.sides
 text = sq.name.upper()
+owner = sq
+owner = owner.name
+owner2 = sq
+owner2 = (owner2
+          .edge)
+sq = sq.grow(2)
+text = text.strip().upper()
+if (sq := sq.grow(3)):
+    sq = (sq
+          .grow(4))
 wide = (sq.
         edge)
 chain = sq.grow(1).\\
